@@ -42,7 +42,8 @@ pub struct Input {
     /// table identifiers differ from the property values they are built from
     pub alt_names: bool,
     /// how the generators are driven: 0 = exactly as the two build.rs files do; bit 0: every value is asked for twice under two identifiers;
-    /// bit 1: parse once, emit twice (run_generators_cfg)
+    /// bit 1: parse once, emit twice (run_generators_cfg); bit 2 (with bit 1): the input is split into two directories, the second is
+    /// parsed after the first emission
     pub cfg: u8,
 }
 
@@ -251,6 +252,11 @@ pub fn run_generators_x(ucd: &Path, out: &Path, alt: bool) -> Result<(), String>
 /// first ones; `twice`: every holder parses the UCD directory once and is then asked to emit twice, into <out>/first and <out>/second.
 /// Without `twice` the files go to <out> through RustCodeGen + UcdFileGen as usual.
 pub fn run_generators_cfg(ucd: &Path, out: &Path, alt: bool, dup: bool, twice: bool) -> Result<(), String> {
+    run_generators_cfg2(ucd, None, out, alt, dup, twice)
+}
+/// `ucd_b`: with `twice`, every holder parses `ucd`, emits into <out>/first, then ALSO parses `ucd_b` (entries that continue the first
+/// directory in ascending order) and emits into <out>/second: the second emission must denote both directories together
+pub fn run_generators_cfg2(ucd: &Path, ucd_b: Option<&Path>, out: &Path, alt: bool, dup: bool, twice: bool) -> Result<(), String> {
     use precis_tools::UcdCodeGen;
     let e = |x: precis_tools::Error| format!("{x}");
     let tn = |t: &str| if alt { format!("{t}_x") } else { t.to_string() };
@@ -318,6 +324,9 @@ pub fn run_generators_cfg(ucd: &Path, out: &Path, alt: bool, dup: bool, twice: b
             for g in gens.iter_mut() {
                 g.parse_unicode_file(ucd).map_err(e)?;
                 g.generate_code(&mut fa).map_err(e)?;
+                if let Some(b) = ucd_b {
+                    g.parse_unicode_file(b).map_err(e)?;
+                }
                 g.generate_code(&mut fb).map_err(e)?;
             }
         }
@@ -875,23 +884,48 @@ pub fn check_input_x(inp: &Input, dir: &Path, l: &mut Local, cross: bool) -> Che
     inp.write(&ucd_dir);
     let case = || json!({"op": "synthetic_ucd", "input": inp.json()});
     l.eval();
-    let (cfg, cross) = (inp.cfg & 3, cross && inp.cfg & 3 == 0);
+    let split = inp.cfg & 4 != 0 && inp.cfg & 2 != 0 && inp.ents.len() >= 2;
+    let (cfg, cross) = (inp.cfg & 3, cross && inp.cfg & 7 == 0);
     let out = if cfg != 0 { dir.join("out-cfg") } else { out };
     if cfg != 0 {
         let _ = std::fs::remove_dir_all(&out);
     }
-    match guard(|| if cfg == 0 { run_generators_x(&ucd_dir, &out, inp.alt_names) } else { run_generators_cfg(&ucd_dir, &out, inp.alt_names, cfg & 1 != 0, cfg & 2 != 0) }) {
+    // split: the same input as two directories, the second continuing the first
+    let (dir_a, dir_b) = (dir.join("ucd-a"), dir.join("ucd-b"));
+    if split {
+        let cut = |v: &Vec<(u32, u32, u8)>, first: bool| -> Vec<(u32, u32, u8)> { if first { v[..v.len() / 2].to_vec() } else { v[v.len() / 2..].to_vec() } };
+        let h = inp.ents.len() / 2;
+        let part = |first: bool| Input {
+            ents: if first { inp.ents[..h].to_vec() } else { inp.ents[h..].to_vec() },
+            scripts: cut(&inp.scripts, first), joining: cut(&inp.joining, first), proplist: cut(&inp.proplist, first), coreprops: cut(&inp.coreprops, first), hangul: cut(&inp.hangul, first),
+            ..inp.clone()
+        };
+        let _ = std::fs::remove_dir_all(&dir_a);
+        let _ = std::fs::remove_dir_all(&dir_b);
+        part(true).write(&dir_a);
+        part(false).write(&dir_b);
+    }
+    match guard(|| {
+        if cfg == 0 {
+            run_generators_x(&ucd_dir, &out, inp.alt_names)
+        } else if split {
+            run_generators_cfg2(&dir_a, Some(&dir_b), &out, inp.alt_names, cfg & 1 != 0, true)
+        } else {
+            run_generators_cfg(&ucd_dir, &out, inp.alt_names, cfg & 1 != 0, cfg & 2 != 0)
+        }
+    }) {
         Ok(Ok(())) => {}
         Ok(Err(e)) => return Err(Violation::new(case(), "generators accept a well-formed UCD input", format!("Err: {e}"))),
         Err(p) => return Err(Violation::new(case(), "generators accept a well-formed UCD input", format!("panic: {p}"))),
     }
     let truth = read_truth(&ucd_dir, true);
     if cfg & 2 != 0 {
-        // both emissions must denote the input
-        if let Err((e, o)) = check_tables_x(&truth, &out.join("first"), false, true, false) {
+        // both emissions must denote what had been parsed when they were made
+        let first_truth = if split { read_truth(&dir_a, true) } else { read_truth(&ucd_dir, true) };
+        if let Err((e, o)) = check_tables_x(&first_truth, &out.join("first"), false, true, false) {
             return Err(Violation::new(case(), format!("first emission: {e}"), o));
         }
-        l.label("parse_once_emit_twice");
+        l.label(if split { "parse_emit_parse_more_emit" } else { "parse_once_emit_twice" });
     }
     if cfg & 1 != 0 {
         l.label("every_table_under_two_identifiers");
@@ -1003,7 +1037,7 @@ pub fn input_strategy() -> BoxedStrategy<Input> {
                 out
             };
             // one input in four drives the generators in another legitimate way (duplicate tables / parse once, emit twice)
-            let cfg = if block_order & 0x0c == 0x0c { 1 + (block_order >> 4) % 3 } else { 0 };
+            let cfg = if block_order & 0x0c == 0x0c { [1u8, 2, 3, 6, 7][(block_order >> 4) as usize % 5] } else { 0 };
             Input { ents, scripts: lay(sc, 0), joining: lay(jt, 1), proplist: lay(pl, 2), coreprops: lay(cp, 3), hangul: lay(hg, 4), block_order, alt_names: block_order & 1 == 1, cfg }
         })
         .boxed()
